@@ -211,7 +211,71 @@ func (c *wsClient) count(tag string) int {
 	return c.got[tag]
 }
 
+// the JSON admin API: a websocket client on topic "api"; commands go out, replies come back as
+// broadcasts of the admin client
+type adminConn struct {
+	conn    *websocket.Conn
+	replies chan []byte
+}
+
+func dialAdmin() (*adminConn, error) {
+	d := websocket.Dialer{HandshakeTimeout: 3 * time.Second}
+	conn, _, err := d.Dial(hostWS+"/ws/api", nil)
+	if err != nil {
+		return nil, err
+	}
+	a := &adminConn{conn: conn, replies: make(chan []byte, 64)}
+	go func() {
+		for {
+			_, data, err := conn.ReadMessage()
+			if err != nil {
+				close(a.replies)
+				return
+			}
+			select {
+			case a.replies <- data:
+			default:
+			}
+		}
+	}()
+	time.Sleep(10 * time.Millisecond)
+	return a, nil
+}
+
+// do sends a command and waits for the reply; the hand-over to the admin client is non-blocking, so a
+// command can be lost: it is repeated (the commands used here may be repeated without changing anything)
+// Everybody on topic "api" sees every command and every reply (the histories of this process share
+// the host), so the reply is recognised by the name it must mention (must) and by not being a command.
+func (a *adminConn) do(cmd interface{}, must string) ([]byte, error) {
+	b, _ := json.Marshal(cmd)
+	for try := 0; try < 4; try++ {
+		for len(a.replies) > 0 {
+			<-a.replies
+		}
+		if err := a.conn.WriteMessage(websocket.TextMessage, b); err != nil {
+			return nil, err
+		}
+		deadline := time.After(500 * time.Millisecond)
+	WAIT:
+		for {
+			select {
+			case r, ok := <-a.replies:
+				if !ok {
+					return nil, fmt.Errorf("admin connection closed")
+				}
+				if strings.Contains(string(r), must) && !strings.Contains(string(r), `"verb"`) {
+					return r, nil
+				}
+			case <-deadline:
+				break WAIT
+			}
+		}
+	}
+	return nil, fmt.Errorf("no reply from the admin API in 2 s")
+}
+
 type hostRun struct {
+	adm      *adminConn
 	k        int
 	c        *Case
 	destPath string
@@ -420,6 +484,9 @@ func runHost(c *Case) {
 		for _, w := range h.pub {
 			w.conn.Close()
 		}
+		if h.adm != nil {
+			h.adm.conn.Close()
+		}
 	}()
 	for i, o := range c.Ops {
 		out := []int{}
@@ -429,13 +496,44 @@ func runHost(c *Case) {
 			for _, f := range o.F {
 				feeds = append(feeds, h.feed(f))
 			}
-			if _, err := hostDo("POST", "/api/streams", map[string]interface{}{"stream": h.stream(o.S), "feeds": feeds}); err != nil {
-				h.fail = "POST /api/streams: " + err.Error()
+			rule := map[string]interface{}{"stream": h.stream(o.S), "feeds": feeds}
+			if len(o.F) == 0 {
+				switch o.Form {
+				case "null":
+					rule["feeds"] = nil // "feeds":null
+				case "missing":
+					delete(rule, "feeds")
+				}
+			}
+			var err error
+			if o.Front == "admin" {
+				if h.adm == nil {
+					h.adm, err = dialAdmin()
+				}
+				if err == nil {
+					_, err = h.adm.do(map[string]interface{}{"verb": "add", "what": "stream", "rule": rule}, h.stream(o.S))
+				}
+			} else {
+				_, err = hostDo("POST", "/api/streams", rule)
+			}
+			if err != nil {
+				h.fail = "add stream rule (" + o.Front + "): " + err.Error()
 			}
 			h.rules[o.S] = o.F
 		case "Del":
-			if _, err := hostDo("DELETE", "/api/streams/"+h.stream(o.S), nil); err != nil {
-				h.fail = "DELETE /api/streams: " + err.Error()
+			var err error
+			if o.Front == "admin" {
+				if h.adm == nil {
+					h.adm, err = dialAdmin()
+				}
+				if err == nil {
+					_, err = h.adm.do(map[string]string{"verb": "delete", "what": "stream", "which": h.stream(o.S)}, h.stream(o.S))
+				}
+			} else {
+				_, err = hostDo("DELETE", "/api/streams/"+h.stream(o.S), nil)
+			}
+			if err != nil {
+				h.fail = "delete stream rule (" + o.Front + "): " + err.Error()
 			}
 			delete(h.rules, o.S)
 		case "Reg":
@@ -493,7 +591,7 @@ func runHost(c *Case) {
 							tc.SetLinger(0)
 						}
 					} else {
-						w.conn.WriteControl(websocket.CloseMessage, websocket.FormatCloseMessage(websocket.CloseNormalClosure, ""), time.Now().Add(time.Second))
+						w.conn.WriteControl(websocket.CloseMessage, websocket.FormatCloseMessage(websocket.CloseNormalClosure, "viewer leaves: goodbye and thanks"), time.Now().Add(time.Second))
 					}
 					w.conn.Close()
 				}
@@ -521,23 +619,30 @@ func runHost(c *Case) {
 					busy = []int{t.N}
 				}
 			}
-			for j := 0; j < 10 && h.fail == ""; j++ {
+			// the feeds keep producing for the whole stall (quickly at first, to fill the relays towards
+			// the subscriber, then four times a second); the reconnecting client backs off 1, 2, 4 s:
+			// wait for the new connection (bounded)
+			for j := 0; time.Since(t0) < 20*time.Second && h.fail == ""; j++ {
+				if open, opened := h.destOpen(); open == 1 && opened > opened0 {
+					break
+				}
 				for _, f := range busy {
 					if p := h.publisher(f, false); p != nil {
 						p.conn.WriteMessage(websocket.TextMessage, []byte(fmt.Sprintf("h%ds%df%d", k, j, f)))
 					}
 				}
-				time.Sleep(15 * time.Millisecond)
-			}
-			// the reconnecting client backs off 1 s, then 2 s: wait for the new connection (bounded)
-			for time.Since(t0) < 9*time.Second {
-				if open, opened := h.destOpen(); open == 1 && opened > opened0 {
-					break
+				pause := 250 * time.Millisecond
+				if j < 10 {
+					pause = 15 * time.Millisecond
 				}
-				time.Sleep(5 * time.Millisecond)
+				for t1 := time.Now(); time.Since(t1) < pause; time.Sleep(5 * time.Millisecond) {
+					if open, opened := h.destOpen(); open == 1 && opened > opened0 {
+						break
+					}
+				}
 			}
 			if open, opened := h.destOpen(); !(open == 1 && opened > opened0) {
-				h.fail = "the destination was not re-dialled within 9 s"
+				h.fail = "the destination was not re-dialled within 20 s"
 			}
 			c.Detail = fmt.Sprintf("stalled %.1f s", time.Since(t0).Seconds())
 			time.Sleep(50 * time.Millisecond)
@@ -569,6 +674,22 @@ func hostProbes(c *Case) {
 	for f := 1; f <= nFeeds; f++ {
 		c.Ops = append(c.Ops, Op{K: "B", F: []int{f}})
 	}
+}
+
+// hostRuleOp: an edit of stream s's rule - new feeds, a delete, or a rule that mutes the whole stream
+// written as [], null or without the feeds member - through the REST or the admin front end
+func hostRuleOp(r *lib.Rng, s int) Op {
+	o := Op{K: "Add", S: s, F: hostFeeds(r, r.Range(1, 3))}
+	switch x := r.Intn(100); {
+	case x < 20:
+		o = Op{K: "Del", S: s}
+	case x < 45:
+		o = Op{K: "Add", S: s, F: []int{}, Form: []string{"", "null", "missing"}[r.Intn(3)]}
+	}
+	if r.Bool() {
+		o.Front = "admin"
+	}
+	return o
 }
 
 func hostFeeds(r *lib.Rng, n int) []int {
@@ -631,12 +752,8 @@ func genHostRepoint(r *lib.Rng) Case {
 	hostProbes(&c)
 	c.Ops = append(c.Ops, Op{K: "Unreg", C: 1}, Op{K: "Reg", C: 5}) // one POST: the rule re-pointed in place
 	hostProbes(&c)
-	for _, s := range []int{1, 2, 1} {
-		if r.Chance(1, 4) {
-			c.Ops = append(c.Ops, Op{K: "Del", S: s})
-		} else {
-			c.Ops = append(c.Ops, Op{K: "Add", S: s, F: hostFeeds(r, r.Range(1, 3))})
-		}
+	for _, s := range []int{1, 2, 1, 2} {
+		c.Ops = append(c.Ops, hostRuleOp(r, s))
 		hostProbes(&c)
 	}
 	return c
@@ -658,8 +775,9 @@ func genHostViewers(r *lib.Rng) Case {
 	hostProbes(&c)
 	steps := [][]Op{
 		{{K: "Unreg", C: 5}},
-		{{K: "Add", S: 1, F: hostFeeds(r, r.Range(1, 3))}},
+		{hostRuleOp(r, 1)},
 		{{K: "Reg", C: 6}},
+		{hostRuleOp(r, 1)},
 		{{K: "Unreg", C: 7}},
 		{{K: "Unreg", C: 6}},
 	}
